@@ -113,6 +113,7 @@ type Loop struct {
 
 type FnCtx struct {
 	filling   []fillRec
+	atNewSeen map[string]bool
 	pendingInv []pendInv
 	fillTypes map[string]bool
 	V    *Verifier
@@ -154,7 +155,7 @@ type FnCtx struct {
 func (v *Verifier) newFnCtx(fn *ssa.Function, prop string) *FnCtx {
 	c := &FnCtx{V: v, U: v.U, fn: fn, con: v.contractOf(fn), prop: prop, D: newDecls(), arrSorts: map[string]Sort{},
 		env: map[ssa.Value]*Bind{}, nobs: map[string]int{}, bvc: map[*ssa.BasicBlock]*BlockVC{}, loops: map[*ssa.BasicBlock]*Loop{},
-		grounded: map[string]bool{}, names: map[string]ssa.Value{}, nameAll: map[string][]ssa.Value{}, assumptions: map[string]bool{}, usedLib: map[string]bool{}}
+		atNewSeen: map[string]bool{}, grounded: map[string]bool{}, names: map[string]ssa.Value{}, nameAll: map[string][]ssa.Value{}, assumptions: map[string]bool{}, usedLib: map[string]bool{}}
 	root := fn
 	for root.Parent() != nil {
 		root = root.Parent()
@@ -853,6 +854,13 @@ func (c *FnCtx) generate() (vc *FnVC, err error) {
 	order := c.rpo()
 	for _, b := range order {
 		c.translateBlock(b, entryItems)
+	}
+	if c.con != nil {
+		for tn := range c.con.AtNew {
+			if !c.atNewSeen[tn] {
+				panic("spec: `atnew " + tn + "` in the contract of " + c.fnKey() + " matches no allocation of that type in the function")
+			}
+		}
 	}
 	// assemble
 	for _, b := range order {
